@@ -18,6 +18,33 @@
 #include "hg_coll.h"
 #include <hgraph/lib/std/operators/impl/record_replay_memory_impl.h>
 #include <hgraph/lib/testing/record_replay.h>
+#include <hgraph/lib/testing/eval_node.h>
+#include <hgraph/types/metadata/type_realization.h>
+#include <hgraph/types/value/value_builder.h>
+
+// A polymorphic named bundle family that is registered LAZILY, the first time a case uses it (i.e. possibly after many other
+// graphs have been wired in this process): an abstract base and two concrete alternatives carried through TS<base>.
+namespace hv_poly { struct Event {}; }
+namespace hgraph
+{
+    template <>
+    struct scalar_descriptor<hv_poly::Event>
+    {
+        [[nodiscard]] static constexpr bool is_concrete() noexcept { return true; }
+        [[nodiscard]] static const ValueTypeMetaData *value_meta()
+        {
+            auto &registry = TypeRegistry::instance();
+            return registry.bundle("verif.poly", "Event", {{"event_id", registry.value_type("str")}}, {}, true);
+        }
+    };
+}  // namespace hgraph
+namespace hgraph::testing
+{
+    template <>
+    struct ts_harness<TS<hv_poly::Event>> : bundle_ts_harness<TS<hv_poly::Event>>
+    {
+    };
+}  // namespace hgraph::testing
 
 #include <atomic>
 #include <mutex>
@@ -467,6 +494,67 @@ namespace hv
         Line("ENDCASE").s(name).s("done");
     }
 
+    // one-cycle delay line over the polymorphic event stream
+    struct PolyLoop
+    {
+        static constexpr auto name = "verif_poly_loop";
+        static Port<TS<hv_poly::Event>> compose(Wiring &w, Port<TS<hv_poly::Event>> value)
+        {
+            auto feedback = stdlib::feedback<TS<hv_poly::Event>>(w);
+            feedback(value);
+            return feedback();
+        }
+    };
+
+    // OPT poly=<n>: n events (alternating concrete kinds by SCRIPT 1 values: even -> Heartbeat, odd -> Create) through PolyLoop
+    inline void run_poly(Ctx &c, const std::string &name)
+    {
+        std::unique_lock<std::mutex> wiring_lock(g_wiring_mutex, std::defer_lock);
+        if (g_serialise_wiring) wiring_lock.lock();       // eval_node wires and runs in one call
+        Line("RUN").i(0);
+        try
+        {
+            auto       &registry  = TypeRegistry::instance();
+            const auto *text      = registry.value_type("str");
+            const auto *event     = scalar_descriptor<hv_poly::Event>::value_meta();
+            const auto *heartbeat = registry.bundle("verif.poly", "Heartbeat", {{"event_id", text}}, {event});
+            const auto *create    = registry.bundle("verif.poly", "Create", {{"event_id", text}, {"order_id", text}}, {event});
+            std::vector<std::optional<Value>> inputs;
+            for (const auto &[t, v] : c.scripts[1])
+            {
+                (void)t;
+                if (v % 3 == 0) { inputs.emplace_back(std::nullopt); continue; }
+                if (v % 2 == 0)
+                {
+                    BundleBuilder b{ValuePlanFactory::instance().type_for(heartbeat)};
+                    b.set("event_id", Value{Str{"hb-" + std::to_string(v)}});
+                    inputs.emplace_back(b.build());
+                }
+                else
+                {
+                    BundleBuilder b{ValuePlanFactory::instance().type_for(create)};
+                    b.set("event_id", Value{Str{"ev-" + std::to_string(v)}});
+                    b.set("order_id", Value{Str{"order-" + std::to_string(v * 7)}});
+                    inputs.emplace_back(b.build());
+                }
+            }
+            const auto out = hgraph::testing::eval_node<PolyLoop>(inputs);
+            for (std::size_t i = 0; i < out.size(); ++i)
+            {
+                if (!out[i].has_value()) { Line("POLY").i((long long)i).s("-"); continue; }
+                const auto concrete = out[i]->view().concrete();
+                Line("POLY").i((long long)i).s(std::string{concrete.schema()->name()}).s(concrete.to_string());
+            }
+        }
+        catch (const std::exception &e)
+        {
+            Line("X.run").s(typeid(e).name()).s(e.what());
+        }
+        Line("RUN.returned").i(0);
+        Line("RUN.released").i(0).s("ok");
+        Line("ENDCASE").s(name).s("done");
+    }
+
     inline void run_case(Ctx &c, const std::string &name)
     {
         tl_ctx = &c;
@@ -475,6 +563,7 @@ namespace hv
         const long long repeat = c.opt_int("repeat", 1);
         Line("CASE").s(name).i(c.win_start).i(c.win_end);
         if (c.graphs.count("main2")) { run_staged(c, name); return; }
+        if (c.opt_int("poly", 0) != 0) { run_poly(c, name); return; }
         std::optional<GraphBuilder> gb;
         try
         {
